@@ -45,7 +45,8 @@ func parseTagAndLength(bytes []byte) (r tagAndLen, off int, e error) {
 		}
 		len := int(bytes[off] & 0x7f)
 		// fmt.Println("len", len)
-		if len > 3 {
+		// (the encoder writes as many length octets as the content needs: four of them cover 4 GiB)
+		if len > 4 {
 			e = fmt.Errorf("length is too large")
 			return r, off, e
 		}
